@@ -121,6 +121,26 @@ func probe(a arg) (string, string) {
 	return "", ""
 }
 
+type flightArg struct {
+	A uint64 `json:"a"`
+	B uint64 `json:"b"`
+}
+
+// a marshalled text handed out by one call must still read the same after a later call
+func probeFlight(p flightArg) (string, string) {
+	a, b := size.Size(p.A), size.Size(p.B)
+	ta, _ := a.MarshalText()
+	ja, _ := a.MarshalJSON()
+	tb, _ := b.MarshalText()
+	jb, _ := b.MarshalJSON()
+	var ga, gb, ha, hb size.Size
+	e1, e2, e3, e4 := ga.UnmarshalText(ta), gb.UnmarshalText(tb), ha.UnmarshalJSON(ja), hb.UnmarshalJSON(jb)
+	if e1 != nil || e2 != nil || e3 != nil || e4 != nil || ga != a || gb != b || ha != a || hb != b {
+		return "text_overwritten_by_later_call", fmt.Sprintf("texts of %d and %d kept across later marshal calls read %q %s %q %s and unmarshal to %d %d %d %d (%v %v %v %v)", p.A, p.B, ta, ja, tb, jb, uint64(ga), uint64(gb), uint64(ha), uint64(hb), e1, e2, e3, e4)
+	}
+	return "", ""
+}
+
 func main() {
 	mc.Main("C04", "every value of the stated alphabet x all 8 Disable* configurations x {MarshalText->UnmarshalText, MarshalJSON->UnmarshalJSON, json.Marshal->json.Unmarshal of struct/pointer/slice/map containers, indented documents, String/PrettyString -> DefaultParser}; "+
 		"non-trivial = value is shortened to a unit above B or has more than three digits", func(r *mc.Run) {
@@ -134,6 +154,18 @@ func main() {
 		}
 		vals := oracle.SizeValues(dense, neigh)
 		r.Extra["value_alphabet_size"] = len(vals)
+		pfl := mc.NewProbe(r, "two_results_in_flight", nil, probeFlight)
+		r.Phase("serial: two marshalled texts in flight (a result must survive later calls), all ordered pairs of 12 sizes", "complete for the listed sizes", func() {
+			r.Serial(func(w *mc.W) {
+				vs := []uint64{0, 1, 1023, 1024, 1025, 1234567, 1 << 20, 5 << 30, 123456789012, 1 << 60, 18446744073709551615, 999 << 40}
+				for _, a := range vs {
+					for _, b := range vs {
+						w.Point()
+						pfl.Do(w, flightArg{a, b})
+					}
+				}
+			})
+		})
 		for cfg := 0; cfg < 8; cfg++ {
 			cfg := cfg
 			r.Phase(fmt.Sprintf("%d values under DisableMarshalTextUnit=%v DisableMarshalJSONStringForm=%v DisableMarshalJSONObjectForm=%v", len(vals), cfg&1 != 0, cfg&2 != 0, cfg&4 != 0), "complete over the value alphabet", func() {
